@@ -171,6 +171,35 @@ def run(pid, tier, replay=None):
         except Exception as ex:
             chk.notes.append("construct_coinbase_transaction(%d) raised %r" % (h, ex))
     chk.extra["enforced_reward_probes"] = nprobe
+    # ---- the schedule is a function of the height, also when the validator (network thread) and the assembler (miner's thread) ask at
+    #      the same time, on both sides of a halving (Interfere.tla; preemption-point exploration on real threads)
+    from checks import interfere
+    rc_ = interfere.design(chk, pid)
+    if rc_:
+        return rc_
+    hA = [interval - 1, interval, interval + 1, 2 * interval, 0]
+    hB = [interval, interval - 1, 3 * interval, 64 * interval, 5]
+    par_a = blk(interval - 1, b"\x00" * 32, 1)
+    cs_a = CoinState.empty().add_block_no_validation(par_a)
+    full, half = initial, initial // 2
+
+    def fa():
+        out = [c.get_block_subsidy(h) for h in hA]
+        for v in (half, half + 1, full):          # the reward rule at the first halved height: half accepted, anything above refused
+            b = blk(interval, par_a.hash(), v)
+            try:
+                c.validate_coinbase_transaction_in_coinstate(b.transactions[0], b, cs_a)
+                out.append(("accepted", v))
+            except c.ValidationError:
+                out.append(("refused", v))
+        return out
+
+    def fb():
+        out = [c.get_block_subsidy(h) for h in hB]
+        out.append(sum(o.value for o in c.construct_coinbase_transaction(interval - 1, [], {}, b"m", pk).outputs))
+        return out
+    itr = interfere.explore_pair(chk, pid, "subsidy_of_a_height_and_the_enforced_reward", fa, fb, quick, rng, files=("skepticoin/consensus.py",))
+    interfere.judge(chk, itr, pid)
     chk.sample(ev[0]); chk.sample(ev[10]); chk.sample(ev[-1])
     verdicts, r2 = tracecheck.run("TraceSubsidy", ev, consts, ids=[1], workers=1)
     chk.states += r2.distinct
